@@ -3,7 +3,7 @@ real plugin hooks on a fixed corpus of str and bytes values, top level and neste
 from __future__ import annotations
 
 from vlib import world
-from vlib.common import Cond, PathLog
+from vlib.common import Cond, PathLog, mkfn
 from vlib.world import W
 
 CORPUS = ["", " a ", "a ", " a", "a\nb", "\r\n", "'", '"', "'\"", "é", "\x00", "\U0001F600", "  ", "\ta", "a\t", "\n", " \n", "a\n", "\na", "a\n\nb", "x" * 100,
@@ -98,15 +98,90 @@ def second_run_is_noop():
     return ok
 
 
+# ---- the literal inside the final file rewrite: an existing line that already holds non-ASCII / multi-line literals --------
+# (program text concrete, data symbolic: int leaves are symbolic, the string that is written is picked by a symbolic
+#  index from STRS, so the solver chooses which literal replaces which)
+STRS = ["cafè", "€ 5", "", "a\nü\n", "\U0001F600'\"", "x"]
+SPLICE = {
+    "list_after_nonascii": ('    assert ["café", x0, "ü"] == snapshot(["café", c0, "ü"])\n', ["x0", "c0"], False),
+    "dict_nonascii_key": ('    assert {"straße": x0, "k": x1} == snapshot({"straße": c0, "k": c1})\n', ["x0", "x1", "c0", "c1"], False),
+    "str_replaced_whole": ('    é = "é"; assert S == snapshot("€ 5"), é\n', [], True),
+    "str_replaced_in_list": ('    assert [S, "b", x0] == snapshot(["café", "b", c0])  # ✓\n', ["x0", "c0"], True),
+    "str_replaced_after_astral": ('    assert ("\U0001F600", S, x0) == snapshot(("\U0001F600", "日本", c0))\n', ["x0", "c0"], True),
+    "multi_line_nonascii": ('    assert ["日本", x0,\n            "ü", x1] == snapshot(["日本", c0,\n "ü", c1])\n', ["x0", "x1", "c0", "c1"], False),
+    "triple_quoted_old": ('    assert [S, x0, "ß"] == snapshot(["""é\nü""", c0, "ß"])\n', ["x0", "c0"], True),
+    "multi_line_whole": ('    assert S == snapshot("""é\nü""")  # ü\n', [], True),
+    "multi_line_in_dict": ('    assert {1: S, 2: x0} == snapshot({1: """é\n  üöä""", 2: c0})\n', ["x0", "c0"], True),
+    "nonascii_identifier_bound": ('    é = x0; ü = "ü"; assert é <= snapshot(c0), ü\n', ["x0", "c0"], False),
+    "dict_value_str": ('    assert {"ä": S, "ö": x0} == snapshot({"ä": "ä", "ö": c0})\n', ["x0", "c0"], True),
+    "delete_and_insert": ('    assert ["ü", x0] == snapshot(["é", "ü", c0, "ß"])\n', ["x0", "c0"], False),
+}
+HEAD = "from inline_snapshot import snapshot\n\n\n"
+
+
+def splice_case(tname, si, fbits, vals):
+    """after the session every rewritten argument reads back (the test passes with inline-snapshot disabled when the
+    needed categories were approved), the text outside the arguments is unchanged and the file still parses"""
+    body, _, uses_s = SPLICE[tname]
+    ns = dict(vals)
+    chosen = None
+    if uses_s:
+        for k, v in enumerate(STRS):
+            if si == k:
+                chosen = v
+        ns["S"] = chosen
+    world.reset(ns)
+    t = HEAD + "def test_a():\n" + body
+    flags = [n for n, b in zip(["fix", "trim", "update"], fbits) if b]
+    r = world.plugin_session(t, cli=",".join(flags) if flags else "report")
+    new = world.text_after(r)
+    PathLog.record(f"{tname}{chosen!r}{flags}{sorted(r.written)}", nontrivial=bool(r.written),
+                   sample={"template": tname, "string": repr(chosen), "flags": flags, "rewritten": world.snapshot_arg_sources(new) if r.written else None})
+    if r.usage_error is not None or r.finish_error is not None:
+        return False
+    with world.NoTracing():
+        import ast
+
+        ast.parse(str(new))
+    if world.mask_snapshot_args(new) != world.mask_snapshot_args(t):
+        return False
+    if "fix" in flags and "trim" in flags:
+        # everything that was wrong or superfluous is approved: the rewritten test passes without inline-snapshot
+        return world.passes_when_disabled(new)
+    if not r.written:
+        return new == t
+    return True
+
+
 def conditions(tier):
+    world.install_plugin_shims()
     return [
         Cond("corpus_pipeline", corpus_pipeline, concrete=True, group="contract-validation", bounds=f"{len(CORPUS)} fixed str/bytes values through the real create pipeline (real repr, tokenizer, black, hooks), top level and nested in list/dict/tuple"),
         Cond("corpus_other_flows", corpus_other_flows, concrete=True, group="contract-validation", bounds="the same corpus written by fix/trim over an existing value: whole value, list element in place, bound, member, dict value"),
         Cond("corpus_second_run", second_run_is_noop, concrete=True, group="contract-validation", bounds="the same corpus: a second run with all categories approved rewrites nothing"),
-    ]
+    ] + splice_conditions()
+
+
+def splice_conditions():
+    conds = []
+    glb = {"splice_case": splice_case, "__name__": "harness.c12b"}
+    for tname, (body, names, uses_s) in SPLICE.items():
+        params = [("si", "int")] + [(f"f{i}", "bool") for i in range(3)] + [(n, "int") for n in names]
+        vd = "{" + ", ".join(f"{n!r}: {n}" for n in names) + "}"
+        pre = [f"0 <= si < {len(STRS)}" if uses_s else "si == 0"]
+        name = f"splice_{tname}"
+        conds.append(Cond(name, mkfn(name, params, f"return splice_case({tname!r}, si, [f0, f1, f2], {vd})", glb, pre=pre), timeout=900, group="file-rewrite",
+                          bounds=f"line {body.strip()!r}: int leaves symbolic" + (f", the written string one of {len(STRS)} (symbolic index)" if uses_s else "") + "; every subset of fix/trim/update"))
+    tw = mkfn("splice_twin", [("si", "int"), ("f0", "bool"), ("f1", "bool"), ("f2", "bool"), ("x0", "int"), ("c0", "int")], "return splice_case('list_after_nonascii', si, [f0, f1, f2], {'x0': x0, 'c0': c0})", glb, pre=["si == 0"], post="not _")
+    conds.append(Cond("splice_twin", tw, timeout=60, twin=True))
+    return conds
 
 
 def replay(tier, condname, cex):
+    if condname.startswith("splice_"):
+        from vlib.common import generic_replay
+
+        return generic_replay({c.name: c for c in splice_conditions()}[condname].fn, cex)
     W.concrete = True
     fn = {"corpus_pipeline": corpus_pipeline, "corpus_second_run": second_run_is_noop, "corpus_other_flows": corpus_other_flows}[condname]
     ok = fn()
